@@ -1,0 +1,234 @@
+//go:build verif
+// +build verif
+
+package clocksync
+
+// Client lemmas for /verif (tool: gov), property C18; never called by library code.
+// Each lemma is verified with the real encoder / decoder bodies inlined: for EVERY value whose
+// fields lie within the bit widths of the package specification the encoder accepts it without
+// panicking, produces exactly Size() bytes, and the decoder returns an equal value.
+func verifAssert(cond bool, label string) {}
+func verifAssume(cond bool)               {}
+
+func lemmaC18_roundtrip_PackageVersionAnsPayload(v PackageVersionAnsPayload) {
+	b, err := v.MarshalBinary()
+	verifAssert(err == nil, "accepted")
+	if err != nil {
+		return
+	}
+	verifAssert(len(b) == v.Size(), "size")
+	var w PackageVersionAnsPayload
+	err2 := w.UnmarshalBinary(b)
+	verifAssert(err2 == nil, "decodes")
+	verifAssert(w == v, "equal")
+}
+
+func lemmaC18_roundtrip_AppTimeReqPayload(v AppTimeReqPayload) {
+	verifAssume(v.Param.TokenReq <= 15)
+	b, err := v.MarshalBinary()
+	verifAssert(err == nil, "accepted")
+	if err != nil {
+		return
+	}
+	verifAssert(len(b) == v.Size(), "size")
+	var w AppTimeReqPayload
+	err2 := w.UnmarshalBinary(b)
+	verifAssert(err2 == nil, "decodes")
+	verifAssert(w == v, "equal")
+}
+
+func lemmaC18_roundtrip_AppTimeAnsPayload(v AppTimeAnsPayload) {
+	verifAssume(v.Param.TokenAns <= 15)
+	b, err := v.MarshalBinary()
+	verifAssert(err == nil, "accepted")
+	if err != nil {
+		return
+	}
+	verifAssert(len(b) == v.Size(), "size")
+	var w AppTimeAnsPayload
+	err2 := w.UnmarshalBinary(b)
+	verifAssert(err2 == nil, "decodes")
+	verifAssert(w == v, "equal")
+}
+
+func lemmaC18_roundtrip_DeviceAppTimePeriodicityReqPayload(v DeviceAppTimePeriodicityReqPayload) {
+	verifAssume(v.Periodicity.Period <= 15)
+	b, err := v.MarshalBinary()
+	verifAssert(err == nil, "accepted")
+	if err != nil {
+		return
+	}
+	verifAssert(len(b) == v.Size(), "size")
+	var w DeviceAppTimePeriodicityReqPayload
+	err2 := w.UnmarshalBinary(b)
+	verifAssert(err2 == nil, "decodes")
+	verifAssert(w == v, "equal")
+}
+
+func lemmaC18_roundtrip_DeviceAppTimePeriodicityAnsPayload(v DeviceAppTimePeriodicityAnsPayload) {
+	b, err := v.MarshalBinary()
+	verifAssert(err == nil, "accepted")
+	if err != nil {
+		return
+	}
+	verifAssert(len(b) == v.Size(), "size")
+	var w DeviceAppTimePeriodicityAnsPayload
+	err2 := w.UnmarshalBinary(b)
+	verifAssert(err2 == nil, "decodes")
+	verifAssert(w == v, "equal")
+}
+
+func lemmaC18_roundtrip_ForceDeviceResyncReqPayload(v ForceDeviceResyncReqPayload) {
+	verifAssume(v.ForceConf.NbTransmissions <= 7)
+	b, err := v.MarshalBinary()
+	verifAssert(err == nil, "accepted")
+	if err != nil {
+		return
+	}
+	verifAssert(len(b) == v.Size(), "size")
+	var w ForceDeviceResyncReqPayload
+	err2 := w.UnmarshalBinary(b)
+	verifAssert(err2 == nil, "decodes")
+	verifAssert(w == v, "equal")
+}
+
+// ---------------------------------------------------------------------------
+// Command streams (bounded: sequences of length 2): a command carrying a payload followed by a
+// command without payload in that direction decodes to exactly these two commands.
+// ---------------------------------------------------------------------------
+
+func lemmaC18_stream_PackageVersionAnsPayload(v PackageVersionAnsPayload) {
+	cmds := Commands{{CID: PackageVersionAns, Payload: &v}, {CID: CID(0x03)}}
+	b, err := cmds.MarshalBinary()
+	verifAssert(err == nil, "accepted")
+	if err != nil {
+		return
+	}
+	var out Commands
+	err2 := out.UnmarshalBinary(true, b)
+	verifAssert(err2 == nil, "decodes")
+	if err2 != nil {
+		return
+	}
+	verifAssert(len(out) == 2, "count")
+	if len(out) != 2 {
+		return
+	}
+	verifAssert(out[0].CID == PackageVersionAns && out[1].CID == CID(0x03) && out[1].Payload == nil, "framing")
+	w, ok := out[0].Payload.(*PackageVersionAnsPayload)
+	verifAssert(ok && *w == v, "first")
+}
+
+func lemmaC18_stream_AppTimeReqPayload(v AppTimeReqPayload) {
+	verifAssume(v.Param.TokenReq <= 15)
+	cmds := Commands{{CID: AppTimeReq, Payload: &v}, {CID: CID(0x03)}}
+	b, err := cmds.MarshalBinary()
+	verifAssert(err == nil, "accepted")
+	if err != nil {
+		return
+	}
+	var out Commands
+	err2 := out.UnmarshalBinary(true, b)
+	verifAssert(err2 == nil, "decodes")
+	if err2 != nil {
+		return
+	}
+	verifAssert(len(out) == 2, "count")
+	if len(out) != 2 {
+		return
+	}
+	verifAssert(out[0].CID == AppTimeReq && out[1].CID == CID(0x03) && out[1].Payload == nil, "framing")
+	w, ok := out[0].Payload.(*AppTimeReqPayload)
+	verifAssert(ok && *w == v, "first")
+}
+
+func lemmaC18_stream_AppTimeAnsPayload(v AppTimeAnsPayload) {
+	verifAssume(v.Param.TokenAns <= 15)
+	cmds := Commands{{CID: AppTimeAns, Payload: &v}, {CID: PackageVersionReq}}
+	b, err := cmds.MarshalBinary()
+	verifAssert(err == nil, "accepted")
+	if err != nil {
+		return
+	}
+	var out Commands
+	err2 := out.UnmarshalBinary(false, b)
+	verifAssert(err2 == nil, "decodes")
+	if err2 != nil {
+		return
+	}
+	verifAssert(len(out) == 2, "count")
+	if len(out) != 2 {
+		return
+	}
+	verifAssert(out[0].CID == AppTimeAns && out[1].CID == PackageVersionReq && out[1].Payload == nil, "framing")
+	w, ok := out[0].Payload.(*AppTimeAnsPayload)
+	verifAssert(ok && *w == v, "first")
+}
+
+func lemmaC18_stream_DeviceAppTimePeriodicityReqPayload(v DeviceAppTimePeriodicityReqPayload) {
+	verifAssume(v.Periodicity.Period <= 15)
+	cmds := Commands{{CID: DeviceAppTimePeriodicityReq, Payload: &v}, {CID: PackageVersionReq}}
+	b, err := cmds.MarshalBinary()
+	verifAssert(err == nil, "accepted")
+	if err != nil {
+		return
+	}
+	var out Commands
+	err2 := out.UnmarshalBinary(false, b)
+	verifAssert(err2 == nil, "decodes")
+	if err2 != nil {
+		return
+	}
+	verifAssert(len(out) == 2, "count")
+	if len(out) != 2 {
+		return
+	}
+	verifAssert(out[0].CID == DeviceAppTimePeriodicityReq && out[1].CID == PackageVersionReq && out[1].Payload == nil, "framing")
+	w, ok := out[0].Payload.(*DeviceAppTimePeriodicityReqPayload)
+	verifAssert(ok && *w == v, "first")
+}
+
+func lemmaC18_stream_DeviceAppTimePeriodicityAnsPayload(v DeviceAppTimePeriodicityAnsPayload) {
+	cmds := Commands{{CID: DeviceAppTimePeriodicityAns, Payload: &v}, {CID: CID(0x03)}}
+	b, err := cmds.MarshalBinary()
+	verifAssert(err == nil, "accepted")
+	if err != nil {
+		return
+	}
+	var out Commands
+	err2 := out.UnmarshalBinary(true, b)
+	verifAssert(err2 == nil, "decodes")
+	if err2 != nil {
+		return
+	}
+	verifAssert(len(out) == 2, "count")
+	if len(out) != 2 {
+		return
+	}
+	verifAssert(out[0].CID == DeviceAppTimePeriodicityAns && out[1].CID == CID(0x03) && out[1].Payload == nil, "framing")
+	w, ok := out[0].Payload.(*DeviceAppTimePeriodicityAnsPayload)
+	verifAssert(ok && *w == v, "first")
+}
+
+func lemmaC18_stream_ForceDeviceResyncReqPayload(v ForceDeviceResyncReqPayload) {
+	verifAssume(v.ForceConf.NbTransmissions <= 7)
+	cmds := Commands{{CID: ForceDeviceResyncReq, Payload: &v}, {CID: PackageVersionReq}}
+	b, err := cmds.MarshalBinary()
+	verifAssert(err == nil, "accepted")
+	if err != nil {
+		return
+	}
+	var out Commands
+	err2 := out.UnmarshalBinary(false, b)
+	verifAssert(err2 == nil, "decodes")
+	if err2 != nil {
+		return
+	}
+	verifAssert(len(out) == 2, "count")
+	if len(out) != 2 {
+		return
+	}
+	verifAssert(out[0].CID == ForceDeviceResyncReq && out[1].CID == PackageVersionReq && out[1].Payload == nil, "framing")
+	w, ok := out[0].Payload.(*ForceDeviceResyncReqPayload)
+	verifAssert(ok && *w == v, "first")
+}
